@@ -36,7 +36,7 @@ CLIENT_ACTIONS = ["Cl_Send", "Srv_Respond", "Cl_Read", "Cl_Redirect", "Cl_Return
 RESP_BUGS = [("dev_CrlfAfterBody", "SerValid"), ("bug_SplitAllSpaces", None), ("bug_DecimalChunkSize", None),
              ("bug_NoCrlfAfterChunk", None), ("bug_SingleRead", None), ("bug_PhraseTypo", "SerValid"), ("bug_WrongCode", "SerValid"),
              ("bug_NoBlankLine", "SerValid"), ("bug_TeKeptAfterDecode", "ParCorrect"), ("bug_UnstableSameNameOrder", "SerValid"), ("bug_MaxAgeThroughF32", "CookieInv")]
-CLIENT_BUGS = ["bug_Follow303", "bug_StopAfterFirst", "bug_RelToFirstHost", "bug_AbsKeepsHost", "bug_Skip307",
+CLIENT_BUGS = ["bug_Follow303", "bug_StopAfterFirst", "bug_RelToFirstHost", "bug_AbsKeepsHost", "bug_Skip307", "bug_RefuseRevisit",
                "reach_MaxChain", "reach_HostSwitch"]
 
 
@@ -97,7 +97,7 @@ def _run(tier, replay):
     # ---- all TLC work that does not depend on the harness runs concurrently, at most 8 TLC workers in total ----
     # quick: the open deviation and a representative subset of the plausible bugs; thorough: all of them
     rb = RESP_BUGS if thorough else [x for x in RESP_BUGS if x[0] in ("dev_CrlfAfterBody", "bug_DecimalChunkSize", "bug_SplitAllSpaces", "bug_UnstableSameNameOrder", "bug_MaxAgeThroughF32")]
-    cb = CLIENT_BUGS if thorough else ["bug_Follow303", "bug_StopAfterFirst", "reach_MaxChain"]
+    cb = CLIENT_BUGS if thorough else ["bug_Follow303", "bug_StopAfterFirst", "bug_RefuseRevisit", "reach_MaxChain"]
     jobs = [("mc:A", lambda: tlc("MC_HttpResp.tla", "MC_HttpResp_%sA.cfg" % T, 2 if thorough else 1, coverage=True)),
             ("mc:B", lambda: tlc("MC_HttpResp.tla", "MC_HttpResp_%sB.cfg" % T, 2 if thorough else 1, coverage=True)),
             ("mc:C", lambda: tlc("MC_HttpResp.tla", "MC_HttpResp_%sC.cfg" % T, 1, coverage=True)),
@@ -304,6 +304,10 @@ def _run(tier, replay):
         "close-delimited bodies, unknown status codes and malformed messages are outside C07 (C09 / C03)",
         "body symbol mappings (a, LF) -> {(a,LF), (NUL,0xFF), (CR,LF), ('0',CR), (0x80,':')} stand for arbitrary bytes",
     ]
+    # which request the client builds from a URL (spec/http/Url.tla; spec growth, DESIGN section 6): beyond what C07 states
+    # (the property starts at the response): drift only
+    import c07_url
+    vlib.run_growth(ctx, "client URLs", c07_url.run_part, tier)
     return ctx.finish()
 
 
